@@ -209,6 +209,9 @@ pub struct ProbSpec {
     pub blocks: Vec<Block>,
     pub warp: Warp,
     pub mix: Option<Mix>,
+    /// the whole state is multiplied by 2^mag2 (an exact change of units: y = 2^mag2 * S u)
+    #[serde(default)]
+    pub mag2: i32,
 }
 
 /// A spec instantiated on a concrete span.
@@ -225,6 +228,10 @@ pub struct Prob {
     pub sinv: Vec<f64>, // n*n
     pub conds: f64,
     offs: Vec<usize>,
+    /// the state is S u with S != identity (a mixing and/or the magnitude factor)
+    use_s: bool,
+    /// 2^mag2: magnitude of the solution's units
+    pub mag: f64,
 }
 
 fn matmul(a: &[f64], b: &[f64], n: usize) -> Vec<f64> {
@@ -314,7 +321,16 @@ impl Prob {
             offs.push(o);
             o += bl.dim();
         }
-        Prob { spec: spec.clone(), n, x0, xend, dir, a, b, w, s, sinv, conds, offs }
+        let mag = crate::instr::ldexp(1.0, spec.mag2);
+        if spec.mag2 != 0 {
+            for v in s.iter_mut() {
+                *v *= mag;
+            }
+            for v in sinv.iter_mut() {
+                *v /= mag;
+            }
+        }
+        Prob { spec: spec.clone(), n, x0, xend, dir, a, b, w, s, sinv, conds, offs, use_s: spec.mix.is_some() || spec.mag2 != 0, mag }
     }
 
     #[inline]
@@ -340,7 +356,7 @@ impl Prob {
     }
     pub fn mul_s(&self, u: &[f64]) -> Vec<f64> {
         let n = self.n;
-        if self.spec.mix.is_none() {
+        if !self.use_s {
             return u.to_vec();
         }
         let mut y = vec![0.0; n];
@@ -389,7 +405,7 @@ impl Rhs for Prob {
         let n = self.n;
         let dt = self.dtau(t);
         let mut gu = [0.0f64; 16];
-        if self.spec.mix.is_none() {
+        if !self.use_s {
             for (bl, &o) in self.spec.blocks.iter().zip(&self.offs) {
                 bl.g(&y[o..o + bl.dim()], &mut gu[o..o + bl.dim()]);
             }
@@ -424,7 +440,7 @@ impl Rhs for Prob {
         let n = self.n;
         let dt = self.dtau(t);
         let mut u = vec![0.0f64; n];
-        if self.spec.mix.is_none() {
+        if !self.use_s {
             u.copy_from_slice(y);
         } else {
             for i in 0..n {
@@ -446,7 +462,7 @@ impl Rhs for Prob {
                 }
             }
         }
-        if self.spec.mix.is_none() {
+        if !self.use_s {
             jm.copy_from_slice(&g);
         } else {
             let t1 = matmul(&self.s, &g, n);
@@ -538,7 +554,7 @@ pub fn prob_spec(nmax: usize, theta_lo: f64, theta_hi: f64) -> BoxedStrategy<Pro
             } else {
                 blocks.truncate(keep);
             }
-            ProbSpec { blocks, warp, mix }
+            ProbSpec { blocks, warp, mix, mag2: 0 }
         })
         .boxed()
 }
@@ -564,7 +580,7 @@ pub fn linear_spec(nmax: usize, autonomous: bool, theta_lo: f64, theta_hi: f64) 
             } else {
                 blocks.truncate(keep);
             }
-            ProbSpec { blocks, warp, mix }
+            ProbSpec { blocks, warp, mix, mag2: 0 }
         })
         .boxed()
 }
